@@ -827,6 +827,11 @@ pub fn check_mock(sc: &Scenario, res: &MockResult, entries: &[Entry], findings: 
 }
 
 pub fn gen_scenario(rng: &mut Rng, miri: bool, long: bool) -> Scenario {
+    gen_scenario_t(rng, miri, long, false)
+}
+
+/// `thorough`: up to 40 record sets in the ordinary scenarios instead of 12
+pub fn gen_scenario_t(rng: &mut Rng, miri: bool, long: bool, thorough: bool) -> Scenario {
     let threads = 1 + rng.below(if miri { 3 } else { 8 }) as u32;
     let queue = 1 + rng.below(4);
     let n = if miri {
@@ -836,7 +841,7 @@ pub fn gen_scenario(rng: &mut Rng, miri: bool, long: bool) -> Scenario {
     } else {
         match rng.below(4) {
             0 => rng.below(3),
-            _ => rng.below(13),
+            _ => rng.below(if thorough { 41 } else { 13 }),
         }
     };
     let sizes = Sizes::List((0..n).map(|_| if rng.chance(1, 4) { rng.below(30) } else { rng.below(4) }).collect());
